@@ -690,6 +690,7 @@ type c39Raw struct {
 	Class   string
 	Incons  bool   // length field / block inconsistent with the type's structure
 	KeyHint string // discriminating feature for finding keys
+	Child   bool   // declared sizes beyond 64 MB: probe in a child process under an address-space limit
 }
 
 func typeName(a []byte) string {
@@ -740,21 +741,25 @@ func c39AllocBound(a []byte) uint64 {
 	return uint64(8*d + 128*nul + 8*len(a) + 256<<10)
 }
 
-func c39ReadRaw(tb ev.TB, rec *ev.Rec, r c39Raw) {
-	tn := typeName(r.A)
-	rec.Case("b|"+fmt.Sprintf("%x", r.A), r.Incons, "b:"+r.Class, "b:type-"+tn)
-	witness := map[string]any{"part": "b", "class": r.Class, "A_hex": fmt.Sprintf("%x", c39Head(r.A, 4096)), "A_len": len(r.A), "B_hex": fmt.Sprintf("%x", c39Sentinel)}
-	md, overKind := refMaxDeclared(append(append([]byte(nil), r.A...), c39Sentinel...))
-	if md > 64<<20 {
-		rec.Excluded("b: declared name/value length > 64 MB (not run, process safety)")
-		return
-	}
-	bound := c39AllocBound(r.A)
-	stream := append(append([]byte(nil), r.A...), c39Sentinel...)
-	rd := bytes.NewReader(stream)
-	fr, err := bfe_spdy.NewFramer(io.Discard, rd)
+// c39Res is what one probe of A||PING observed.
+type c39Res struct {
+	Panic1   string // panic of ReadFrame(A)
+	Alloc    uint64 // TotalAlloc delta of ReadFrame(A)
+	Err1     string // error of ReadFrame(A) ("" = accepted)
+	First    string
+	Panic2   string
+	Second   string // "" if the second ReadFrame returned exactly the sentinel
+	Third    string // "" if the third ReadFrame returned io.EOF
+	Died     string // child process died while reading A (out of memory ...)
+	Excluded bool
+}
+
+// c39Probe reads A||PING with a fresh Framer (in this process).
+func c39Probe(a []byte) (res c39Res) {
+	stream := append(append([]byte(nil), a...), c39Sentinel...)
+	fr, err := bfe_spdy.NewFramer(io.Discard, bytes.NewReader(stream))
 	if err != nil {
-		tb.Fatalf("NewFramer: %v", err)
+		panic(err)
 	}
 	defer fr.ReleaseWriter()
 	var f1 bfe_spdy.Frame
@@ -763,48 +768,114 @@ func c39ReadRaw(tb ev.TB, rec *ev.Rec, r c39Raw) {
 	runtime.ReadMemStats(&m0)
 	p := ev.Try(func() { f1, e1 = fr.ReadFrame() })
 	runtime.ReadMemStats(&m1)
+	res.Alloc = m1.TotalAlloc - m0.TotalAlloc
 	if p != nil {
-		if !rec.Fail(tb, "panic-readframe-"+tn, witness, "ReadFrame panicked on a %s frame (%s): %v", tn, r.Class, p) {
-			return
-		}
-	}
-	if delta := m1.TotalAlloc - m0.TotalAlloc; delta > bound {
-		key := "alloc-" + tn
-		if overKind != "" {
-			// the block declares a name/value longer than what it carries
-			key = "alloc-" + overKind + "-length-prefix"
-		} else if r.KeyHint != "" {
-			key = "alloc-" + r.KeyHint
-		}
-		witness["over_declared"] = overKind
-		witness["max_declared"] = md
-		witness["alloc_bytes"] = delta
-		witness["bound_bytes"] = bound
-		rec.Class("b:alloc-over-bound")
-		if !rec.Fail(tb, key, witness, "ReadFrame allocated %d bytes for a %d-byte %s frame (%s); justified bound %d", delta, len(r.A), tn, r.Class, bound) {
-			return
-		}
-	}
-	if e1 != nil {
-		rec.Class("b:A-rejected")
+		res.Panic1 = fmt.Sprint(p)
 		return
 	}
-	rec.Class("b:A-accepted")
+	if e1 != nil {
+		res.Err1 = e1.Error()
+		if res.Err1 == "" {
+			res.Err1 = "error"
+		}
+		return
+	}
+	res.First = fmt.Sprintf("%#v", f1)
+	if len(res.First) > 300 {
+		res.First = res.First[:300]
+	}
 	var f2 bfe_spdy.Frame
 	var e2 error
 	if p := ev.Try(func() { f2, e2 = fr.ReadFrame() }); p != nil {
-		rec.Fail(tb, "panic-readframe-after-"+tn, witness, "second ReadFrame panicked after a %s frame (%s): %v", tn, r.Class, p)
+		res.Panic2 = fmt.Sprint(p)
 		return
 	}
-	pf, ok := f2.(*bfe_spdy.PingFrame)
-	if e2 != nil || !ok || pf.Id != c39SentinelID {
-		witness["first_frame"] = fmt.Sprintf("%#v", f1)
-		rec.Fail(tb, "boundary-lost-"+tn, witness, "ReadFrame accepted a %d-byte %s frame (%s) without error but the next ReadFrame returned (%#v, %v) instead of the sentinel PING that follows it", len(r.A), tn, r.Class, f2, e2)
+	if pf, ok := f2.(*bfe_spdy.PingFrame); e2 != nil || !ok || pf.Id != c39SentinelID {
+		res.Second = fmt.Sprintf("(%#v, %v)", f2, e2)
+		if len(res.Second) > 300 {
+			res.Second = res.Second[:300]
+		}
 		return
 	}
 	var e3 error
 	if p := ev.Try(func() { _, e3 = fr.ReadFrame() }); p != nil || e3 != io.EOF {
-		rec.Fail(tb, "boundary-lost-"+tn, witness, "after A and the sentinel the stream is not at EOF: panic=%v err=%v", p, e3)
+		res.Third = fmt.Sprintf("panic=%v err=%v", p, e3)
+	}
+	return
+}
+
+// c39HugeCount reports a SETTINGS entry count whose slice would exceed 64 MB: such frames are only
+// probed in a child process under an address-space limit.
+func c39HugeCount(a []byte) bool {
+	return len(a) >= 12 && a[0]&0x80 != 0 && binary.BigEndian.Uint16(a[2:]) == tSettings && binary.BigEndian.Uint32(a[8:]) > (64<<20)/12
+}
+
+func c39ReadRaw(tb ev.TB, rec *ev.Rec, r c39Raw) {
+	md, _ := refMaxDeclared(append(append([]byte(nil), r.A...), c39Sentinel...))
+	if md > 64<<20 || c39HugeCount(r.A) {
+		if r.Child {
+			c39ChildProbes(tb, rec, []c39Raw{r})
+			return
+		}
+		rec.Case("b|"+fmt.Sprintf("%x", r.A), r.Incons, "b:"+r.Class, "b:type-"+typeName(r.A))
+		rec.Excluded("b: declared length/count > 64 MB (only probed in the guarded child process of the sweep)")
+		return
+	}
+	c39Verdict(tb, rec, r, c39Probe(r.A))
+}
+
+func c39Verdict(tb ev.TB, rec *ev.Rec, r c39Raw, res c39Res) {
+	tn := typeName(r.A)
+	rec.Case("b|"+fmt.Sprintf("%x", r.A), r.Incons, "b:"+r.Class, "b:type-"+tn)
+	witness := map[string]any{"part": "b", "class": r.Class, "A_hex": fmt.Sprintf("%x", c39Head(r.A, 4096)), "A_len": len(r.A), "B_hex": fmt.Sprintf("%x", c39Sentinel)}
+	md, overKind := refMaxDeclared(append(append([]byte(nil), r.A...), c39Sentinel...))
+	bound := c39AllocBound(r.A)
+	allocKey := "alloc-" + tn
+	if overKind != "" {
+		// the block declares a name/value longer than what it carries
+		allocKey = "alloc-" + overKind + "-length-prefix"
+	} else if r.KeyHint != "" {
+		allocKey = "alloc-" + r.KeyHint
+	}
+	witness["over_declared"] = overKind
+	witness["max_declared"] = md
+	if res.Died != "" {
+		rec.Class("b:alloc-over-bound")
+		rec.Fail(tb, allocKey, witness, "reading a %d-byte %s frame (%s) killed the process under a %d MB address-space limit: %s (justified allocation bound %d bytes)", len(r.A), tn, r.Class, c39ChildLimitMB, res.Died, bound)
+		return
+	}
+	if res.Panic1 != "" {
+		if !rec.Fail(tb, "panic-readframe-"+tn, witness, "ReadFrame panicked on a %s frame (%s): %v", tn, r.Class, res.Panic1) {
+			return
+		}
+	}
+	if res.Alloc > bound {
+		witness["alloc_bytes"] = res.Alloc
+		witness["bound_bytes"] = bound
+		rec.Class("b:alloc-over-bound")
+		if !rec.Fail(tb, allocKey, witness, "ReadFrame allocated %d bytes for a %d-byte %s frame (%s); justified bound %d", res.Alloc, len(r.A), tn, r.Class, bound) {
+			return
+		}
+	}
+	if res.Panic1 != "" {
+		return
+	}
+	if res.Err1 != "" {
+		rec.Class("b:A-rejected")
+		return
+	}
+	rec.Class("b:A-accepted")
+	if res.Panic2 != "" {
+		rec.Fail(tb, "panic-readframe-after-"+tn, witness, "second ReadFrame panicked after a %s frame (%s): %v", tn, r.Class, res.Panic2)
+		return
+	}
+	if res.Second != "" {
+		witness["first_frame"] = res.First
+		rec.Fail(tb, "boundary-lost-"+tn, witness, "ReadFrame accepted a %d-byte %s frame (%s) without error but the next ReadFrame returned %s instead of the sentinel PING that follows it", len(r.A), tn, r.Class, res.Second)
+		return
+	}
+	if res.Third != "" {
+		rec.Fail(tb, "boundary-lost-"+tn, witness, "after A and the sentinel the stream is not at EOF: %s", res.Third)
 	}
 }
 
@@ -944,6 +1015,16 @@ func genFixedFrame(rt *rapid.T) c39Raw {
 	}
 	r.Class = "fixed-" + shape
 	r.A = ctlFrame(typ, flags, body)
+	if typ == tSettings && rapid.IntRange(0, 11).Draw(rt, "wrapCount") == 5 {
+		// count = true count + m*2^29: 4+8*count wraps to the declared length in 32-bit arithmetic
+		n := rapid.IntRange(0, 6).Draw(rt, "wrapEntries")
+		m := uint32(rapid.IntRange(1, 7).Draw(rt, "wrapM"))
+		body = u32(m<<29 | uint32(n))
+		for i := 0; i < n; i++ {
+			body = append(body, u32(uint32(rapid.IntRange(1, 8).Draw(rt, "sid")), rapid.Uint32().Draw(rt, "sval"))...)
+		}
+		r = c39Raw{A: ctlFrame(tSettings, 0, body), Class: "fixed-settings-count-wrap", Incons: true, Child: true}
+	}
 	return r
 }
 
@@ -1046,6 +1127,7 @@ func TestC39(t *testing.T) {
 	spdyDict()
 	c39Sweep(t, rec)
 	c39RawSweep(t, rec)
+	c39GuardedSweep(t, rec)
 	maxSeq := ev.N(6, 8)
 	rapid.Check(t, func(rt *rapid.T) {
 		if rapid.Bool().Draw(rt, "part") {
